@@ -34,6 +34,33 @@ class CSeq(collections.abc.Sequence):
     def __init__(self, xs): self.xs = list(xs)
     def __getitem__(self, i): return self.xs[i]
     def __len__(self): return len(self.xs)
+class DSub(dict):
+    # dict subclass that does NOT override get; everything the helpers must not call is logged
+    def __getitem__(self, k): LOG.append('getitem'); return dict.__getitem__(self, k)
+    def __contains__(self, k): LOG.append('contains'); return dict.__contains__(self, k)
+    def keys(self): LOG.append('keys'); return dict.keys(self)
+    def __len__(self): return dict.__len__(self)
+class DGet(dict):
+    # dict subclass overriding get: call log, hidden keys and aliased values come from `view`
+    def __init__(self, raw, view): dict.__init__(self, raw); self.view = view
+    def get(self, k, default=None):
+        LOG.append('get' + canon(k))
+        return self.view.get(k, default)
+def _rev(cls, self): return [cls.__getitem__(self, j) for j in range(cls.__len__(self) - 1, -1, -1)]
+class RevList(list):
+    # coherent overrides: len / indexing / iteration all present the reversed storage
+    def __len__(self): return list.__len__(self)
+    def __iter__(self): return iter(_rev(list, self))
+    def __getitem__(self, i): return _rev(list, self)[i]
+class RevTuple(tuple):
+    def __len__(self): return tuple.__len__(self)
+    def __iter__(self): return iter(_rev(tuple, self))
+    def __getitem__(self, i): return _rev(tuple, self)[i]
+class MyStr(str): pass
+class MyBytes(bytes): pass
+class MyBA(bytearray): pass
+class TupSub(tuple): pass
+import collections, array
 class Base:
     def __init__(self, **kw): self.__dict__.update(kw)
 class C0(Base): __match_args__ = ('a0', 'a1')
@@ -47,14 +74,40 @@ class C7(Base):
     __match_args__ = ('a0', 'a1')
     @property
     def a1(self): raise ValueError('a1')
-CLASSES = [C0, C1, C2, C3, C4, C5, C6, C7]
+class C8(Base): __match_args__ = TupSub(('a0', 'a1'))     # tuple subclass: TypeError like any non-tuple
+class C9(Base): __match_args__ = ('a0', MyStr('a1'))       # str subclass element: TypeError like any non-str
+class C10:
+    # attribute access goes through an overriding __getattribute__ (the instance dict holds none of a0..a3)
+    __match_args__ = ('a0', 'a1', 'a2')
+    def __init__(self, **kw): object.__setattr__(self, '_view', kw)
+    def __getattribute__(self, name):
+        if len(name) == 2 and name[0] == 'a' and name[1].isdigit():
+            v = object.__getattribute__(self, '_view')
+            if name in v: return v[name]
+            raise AttributeError(name)
+        return object.__getattribute__(self, name)
+CLASSES = [C0, C1, C2, C3, C4, C5, C6, C7, C8, C9, C10]
 def canon(v):
     t = type(v)
     if t is bool: return 'bT' if v else 'bF'
     if t is int: return 'i%d' % v
     if v is None: return 'N'
     if t is str: return v if v[:1] == 's' and v[1:].isdigit() else 'str?' + v
-    if t is bytes or t is bytearray: return v.decode()
+    if t is bytes: return v.decode()
+    if t is MyStr: return 'z0:' + str.__str__(v)[1:]
+    if t is MyBytes: return 'z1:' + v.decode()[1:]
+    if t is bytearray: return 'z2:' + v.decode()[1:]
+    if t is MyBA: return 'z3:' + v.decode()[1:]
+    if t is DSub: return 'DS{' + ','.join(canon(k) + ':' + canon(x) for k, x in dict.items(v)) + '}'
+    if t is DGet: return 'DG{' + ','.join(canon(k) + ':' + canon(x) for k, x in dict.items(v)) + '}'
+    if t is RevList: return 'U0[' + ','.join(map(canon, _rev(list, v))) + ']'
+    if t is RevTuple: return 'U1[' + ','.join(map(canon, _rev(tuple, v))) + ']'
+    if t is collections.deque: return 'U2[' + ','.join(map(canon, v)) + ']'
+    if t is array.array: return 'U3[' + ','.join(map(canon, v)) + ']'
+    if t is range: return 'U4[' + ','.join(map(canon, v)) + ']'
+    if t is C10:
+        items = sorted((int(a[1:]), x) for a, x in object.__getattribute__(v, '_view').items())
+        return 'O10{' + ''.join('a%d=%s;' % (a, canon(x)) for a, x in items) + '}'
     if t is E: return 'e%d:%d' % (v.tag, v.n)
     if t is list: return 'L[' + ','.join(map(canon, v)) + ']'
     if t is tuple: return 'T[' + ','.join(map(canon, v)) + ']'
@@ -83,7 +136,8 @@ def wrapped(f, s):
 NNAMES = 4
 CONSTS = [("i", 1), ("i", 1), ("i", 2), ("s", 0), ("n",), ("b", 1), ("i", -1), ("i", 0)]
 # class table of the model: (supers, match_args) ; match_args: None absent, 'nt' non-tuple, list of attr ids / None (non-str)
-CLASSTAB = [([], [0, 1]), ([0], [1, 0, 2]), ([], None), ([], "nt"), ([], [0, None]), ([], [0, 0]), ([], []), ([], [0, 1])]
+CLASSTAB = [([], [0, 1]), ([0], [1, 0, 2]), ([], None), ([], "nt"), ([], [0, None]), ([], [0, 0]), ([], []), ([], [0, 1]),
+            ([], "nt"), ([], [0, None]), ([], [0, 1, 2])]
 
 
 def tab_tokens():
@@ -132,8 +186,15 @@ def val_tok(v):
         return ["e", str(v[1]), str(v[2])]
     if k in "LTQ":
         return [k, str(len(v[1]))] + [t for x in v[1] for t in val_tok(x)]
-    if k in "DM":
+    if k in ("D", "M", "DS"):
         return [k, str(len(v[1]))] + [t for kk, x in v[1] for t in lit_tok(kk) + val_tok(x)]
+    if k == "DG":
+        return (["DG", str(len(v[1]))] + [t for kk, x in v[1] for t in lit_tok(kk) + val_tok(x)]
+                + [str(len(v[2]))] + [t for kk, x in v[2] for t in lit_tok(kk) + val_tok(x)])
+    if k == "U":
+        return ["U", str(v[1]), str(len(v[2]))] + [t for x in v[2] for t in val_tok(x)]
+    if k == "z":
+        return ["z", str(v[1]), str(v[2])]
     if k == "O":
         out = ["O", str(v[1]), str(len(v[2]))]
         for a, x in v[2]:
@@ -156,9 +217,24 @@ def val_src(v):
         return "(" + "".join(val_src(x) + ", " for x in v[1]) + ")"
     if k == "Q":
         return "CSeq([" + ", ".join(map(val_src, v[1])) + "])"
-    if k in "DM":
+    if k in ("D", "M", "DS"):
         d = "{" + ", ".join(lit_src(kk) + ": " + val_src(x) for kk, x in v[1]) + "}"
-        return d if k == "D" else "LMap(%s)" % d
+        return d if k == "D" else ("LMap(%s)" if k == "M" else "DSub(%s)") % d
+    if k == "DG":
+        return "DGet(%s, %s)" % tuple("{" + ", ".join(lit_src(kk) + ": " + val_src(x) for kk, x in its) + "}" for its in (v[1], v[2]))
+    if k == "U":
+        xs = [val_src(x) for x in v[2]]
+        if v[1] == 0:
+            return "RevList([" + ", ".join(reversed(xs)) + "])"
+        if v[1] == 1:
+            return "RevTuple([" + ", ".join(reversed(xs)) + "])"
+        if v[1] == 2:
+            return "collections.deque([" + ", ".join(xs) + "])"
+        if v[1] == 3:
+            return "array.array('i', [" + ", ".join(xs) + "])"
+        return "range(%d, %d)" % ((v[2][0][1], v[2][0][1] + len(v[2])) if v[2] else (0, 0))
+    if k == "z":
+        return ["MyStr('s%d')", "MyBytes(b'y%d')", "bytearray(b'y%d')", "MyBA(b'y%d')"][v[1]] % v[2]
     if k == "O":
         return "C%d(%s)" % (v[1], ", ".join("a%d=%s" % (a, val_src(x)) for a, x in v[2] if x is not None))
     raise ValueError(v)
@@ -401,11 +477,40 @@ class VGen:
         self.rng = rng
         self.tag = 0
 
-    def atom(self):
+    def mkseq(self, xs):
+        """dynamic class of a sequence subject: exact list/tuple, Sequence-ABC, list/tuple subclass with coherent overrides, deque, array, range"""
         r = self.rng
         c = r.random()
         if c < 0.5:
+            return (r.choice("LLTTQ"), xs)
+        if c >= 0.82 and xs and all(x[0] == "i" and abs(x[1]) < 2 ** 31 for x in xs):
+            if c >= 0.91 and all(b[1] == a[1] + 1 for a, b in zip(xs, xs[1:])):
+                return ("U", 4, xs)
+            return ("U", 3, xs)
+        return ("U", r.choice([0, 1, 2]), xs)
+
+    def mkmap(self, its):
+        """dynamic class of a mapping subject: exact dict, Mapping-ABC (logging get), dict subclass without get override (other
+        methods overridden + logged), dict subclass overriding get (log, hidden keys, values differing from the hash table)"""
+        r = self.rng
+        c = r.random()
+        if c < 0.35:
+            return ("D", its)
+        if c < 0.5:
+            return ("M", its)
+        if c < 0.65:
+            return ("DS", its)
+        raw = [(k, x if r.random() < 0.55 else self.atom()) for k, x in its]
+        view = [(k, x) for k, x in its if r.random() > 0.15]
+        return ("DG", raw, view)
+
+    def atom(self):
+        r = self.rng
+        c = r.random()
+        if c < 0.45:
             return r.choice(LITS)
+        if c < 0.5:
+            return ("z", r.randrange(4), r.randrange(2))
         if c < 0.6:
             return ("y", r.randrange(2))
         if c < 0.8:
@@ -419,9 +524,12 @@ class VGen:
             return self.atom()
         c = r.random()
         if c < 0.4:
-            return (r.choice("LLTQ"), [self.rand(depth - 1) for _ in range(r.randrange(0, 5))])
+            if r.random() < 0.1:
+                a = r.randrange(-2, 3)
+                return ("U", 4, [("i", a + j) for j in range(r.randrange(0, 5))])
+            return self.mkseq([self.rand(depth - 1) for _ in range(r.randrange(0, 5))])
         if c < 0.7:
-            return (r.choice("DDM"), self.items([r.choice(LITS) for _ in range(r.randrange(0, 4))], depth))
+            return self.mkmap(self.items([r.choice(LITS) for _ in range(r.randrange(0, 4))], depth))
         return self.obj(r.randrange(len(CLASSTAB)), {a: self.rand(depth - 1) for a in r.sample(range(4), r.randrange(0, 4))})
 
     def items(self, keys, depth, vals=None):
@@ -476,7 +584,9 @@ class VGen:
                 xs.pop(r.randrange(len(xs)))
             elif c < 0.2:
                 xs.insert(r.randrange(len(xs) + 1), self.atom())
-            return (r.choice("LLTTQ"), xs)
+            if r.random() < 0.05:
+                return ("z", r.randrange(4), r.randrange(2))       # str / bytes / bytearray (sub)classes must not match
+            return self.mkseq(xs)
         if k == "M":
             keys = [(key[1] if key[0] == "l" else CONSTS[key[1]]) for key, _ in p[1]]
             vals = [self.inst(x, depth - 1) for _, x in p[1]]
@@ -489,7 +599,7 @@ class VGen:
             its = self.items(keys + extra, 1, vals + [self.rand(0) for _ in extra])
             if r.random() < 0.3:
                 r.shuffle(its)
-            return (r.choice("DDM"), its)
+            return self.mkmap(its)
         if k == "C":
             _, c, pos, kw = p
             if not isinstance(c, (tuple, list)):
@@ -497,8 +607,8 @@ class VGen:
                     return self.rand(1)
                 if pos:
                     v = self.inst(pos[0], depth - 1)
-                    want = {"int": "ib", "bool": "b", "str": "s", "list": "L", "tuple": "T", "dict": "D"}[c]
-                    if v[0] in want:
+                    want = {"int": "ib", "bool": "b", "str": "s", "list": "L", "tuple": "T", "dict": ("D", "DS", "DG")}[c]
+                    if v[0] in want or (c == "str" and v[:2] == ("z", 0)) or (v[0] == "U" and v[1] == {"list": 0, "tuple": 1}.get(c)):
                         return v
                 return {"int": ("i", 1), "bool": ("b", 1), "str": ("s", 0), "list": ("L", []), "tuple": ("T", []),
                         "dict": ("D", [])}[c] if r.random() < 0.8 else self.rand(1)
@@ -723,6 +833,8 @@ def run_batch(ctx, supdir, stmts_by_mod, subjects_by_mod, variant, tab, label):
             ctx.count(kind)
             for x in sorted(f):
                 ctx.dist[x] = ctx.dist.get(x, 0) + 1
+            sk = "subject-" + s[0] + (str(s[1]) if s[0] in ("U", "z") else "")
+            ctx.dist[sk] = ctx.dist.get(sk, 0) + 1
             ctx.seen((tuple(stmt_tokens(stmts[j])), tuple(val_tok(s))), nontrivial=(kind != "nomatch" or "log=g" in oc or "log=e" in oc))
             rep = {"stmt": stmts[j], "subject": s, "source": func_src(0, stmts[j])[:1500], "subject_src": val_src(s)[:300],
                    "impl": im[:300], "oracle": oc[:300], "model_cy": mcy[:300], "model_ref": mref[:300], "variant": variant}
